@@ -31,6 +31,46 @@ func c01Roots(c *core.Ctx) []*ssa.Function {
 	return roots
 }
 
+// c01OutsideState: fields read inside the consensus closure and written outside it, with the reason each is a function of the chain.
+var c01OutsideState = map[string]string{
+	"consensus.DPoVP.am":           "pointer set at construction; the writes seen are calls through it into the account manager, which is re-based on the parent state before every block (executor-state rule)",
+	"consensus.DPoVP.dm":           "pointer set at construction; the writes seen are calls through it into the deputy manager, whose only state read here is termList (next entry)",
+	"deputynode.Manager.termList": "appended by SaveSnapshot from stable snapshot blocks only (C10.5): a function of the chain; a node that does not have the term yet fails with ErrNoStableTerm instead of answering differently",
+}
+
+// sharedOwner: the struct that declares f has a sync.Mutex / sync.RWMutex field (directly or embedded).
+func sharedOwner(c *core.Ctx, f *types.Var) bool {
+	n := ownerNamed(c, f)
+	if n == nil {
+		return false
+	}
+	st, ok := n.Underlying().(*types.Struct)
+	if !ok {
+		return false
+	}
+	for i := 0; i < st.NumFields(); i++ {
+		t := st.Field(i).Type()
+		if p, ok := t.(*types.Pointer); ok {
+			t = p.Elem()
+		}
+		if nt, ok := t.(*types.Named); ok && nt.Obj().Pkg() != nil && nt.Obj().Pkg().Path() == "sync" && (nt.Obj().Name() == "Mutex" || nt.Obj().Name() == "RWMutex") {
+			return true
+		}
+	}
+	return false
+}
+
+// ownerOfField names the struct type that declares the field ("deputynode.Manager").
+func ownerOfField(c *core.Ctx, f *types.Var) string {
+	if n := ownerNamed(c, f); n != nil {
+		return n.Obj().Pkg().Name() + "." + n.Obj().Name()
+	}
+	if f.Pkg() != nil {
+		return f.Pkg().Name() + ".?"
+	}
+	return "?"
+}
+
 // c01GlobalWrites: package-level variables written inside the consensus closure, confirmed by reading; value = why it cannot carry
 // state from one block's execution into the next one's result.
 var c01GlobalWrites = map[string]string{
@@ -375,6 +415,86 @@ func c01(c *core.Ctx) {
 			}
 			c.Check("executor-state/"+shortFn(e)+":Reset(header.ParentHash)≺applyTx", "order", ok, e.Pos(), "%s re-bases the account manager on the parent block of the header it executes before the first transaction", shortFn(e))
 		}
+	})
+
+	c.Run("outside-state", func() {
+		// State that reaches the transition from outside it: struct fields that functions of the closure read and that some function OUTSIDE
+		// the closure (not a constructor working on a fresh object) writes. Everything on this list must be a function of the chain (or of
+		// the node's configuration, equal on all nodes by assumption); a field filled by what this node happened to see — peers, timing,
+		// what it was online for — makes two honest nodes compute different results. The list is frozen with the reason for every entry.
+		read := map[*types.Var]*ssa.Function{}
+		for _, f := range fns {
+			for _, b := range f.Blocks {
+				for _, in := range b.Instrs {
+					var fa ssa.Value
+					switch x := in.(type) {
+					case *ssa.FieldAddr:
+						fa = x
+					case *ssa.Field:
+						fa = x
+					}
+					if fa == nil {
+						continue
+					}
+					fv := core.FieldOf(fa)
+					if fv == nil || fv.Pkg() == nil || !strings.HasPrefix(fv.Pkg().Path(), core.ModPath) {
+						continue
+					}
+					// shared service objects only: the struct that declares the field also declares a mutex (plain data types — headers,
+					// accounts, decoded messages — are filled by decoders and are functions of the bytes they were decoded from)
+					if !sharedOwner(c, fv) {
+						continue
+					}
+					if _, ok := read[fv]; !ok {
+						read[fv] = f
+					}
+				}
+			}
+		}
+		written := map[*types.Var]*ssa.Function{}
+		for _, f := range c.SrcFuncs {
+			if _, in := cl[core.Outer(f)]; in || isTestHelper(c, f) {
+				continue
+			}
+			if _, in := cl[f]; in {
+				continue
+			}
+			for _, b := range f.Blocks {
+				for _, in := range b.Instrs {
+					fa, ok := in.(*ssa.FieldAddr)
+					if !ok {
+						continue
+					}
+					fv := core.FieldOf(fa)
+					if fv == nil || read[fv] == nil {
+						continue
+					}
+					if _, fresh := fa.X.(*ssa.Alloc); fresh {
+						continue
+					}
+					if !core.AddrWritten(fa) {
+						continue
+					}
+					if _, ok := written[fv]; !ok {
+						written[fv] = f
+					}
+				}
+			}
+		}
+		var keys []string
+		byKey := map[string]*types.Var{}
+		for fv := range written {
+			k := ownerOfField(c, fv) + "." + fv.Name()
+			keys = append(keys, k)
+			byKey[k] = fv
+		}
+		sort.Strings(keys)
+		for _, k := range keys {
+			fv := byKey[k]
+			why, listed := c01OutsideState[k]
+			c.Check("outside-state/"+k, "effects", listed, token.NoPos, "field %s is read inside the consensus closure (e.g. by %s) and written outside it (e.g. by %s); listed=%v: %s", k, shortFn(read[fv]), shortFn(written[fv]), listed, why)
+		}
+		c.Note("fields read in the closure and written outside it: %d", len(keys))
 	})
 
 	c.Run("map-iteration", func() {
